@@ -25,6 +25,17 @@ func all(fs ...func(map[string]int64) bool) func(map[string]int64) bool {
 	}
 }
 
+func either(fs ...func(map[string]int64) bool) func(map[string]int64) bool {
+	return func(st map[string]int64) bool {
+		for _, f := range fs {
+			if f(st) {
+				return true
+			}
+		}
+		return false
+	}
+}
+
 var properties = map[string]propSpec{
 	"C01": {
 		Level: "exploration",
@@ -160,11 +171,14 @@ func init() {
 		Plan: []planEntry{
 			{Engine: "A", Scenario: "crashy", Quick: 36, Thorough: 400},
 			{Engine: "A", Scenario: "general", Quick: 8, Thorough: 100},
+			{Engine: "A", Scenario: "install-crash", Params: "seg=1024", Quick: 12, Thorough: 150},
+			{Engine: "A", Scenario: "bootstrap-crash", Quick: 6, Thorough: 60},
+			{Engine: "A", Scenario: "window-crash", Params: "seg=1024", Quick: 16, Thorough: 200},
 		},
-		Rule:       "seeded live-cluster runs with hard crashes (cut off the network, copy the storage directory = kill -9 image, restart on the copy) armed at the storage hook points (vote before/after persist, append, segment flush phases, roll-over, truncation, compaction, snapshot publish, install stored / log handled, log reset, segment creation, reply); each restart is compared with what the node had acknowledged; non-trivial if at least 2 crash images were reopened; distinct = distinct abstract trace (includes the crash points)",
-		Nontrivial: all(ge("crash-restarts", 2)),
+		Rule:       "seeded live-cluster runs with hard crashes (cut off the network, copy the storage directory = kill -9 image, restart on the copy) armed at the storage hook points (vote before/after persist, append, segment flush phases, roll-over, truncation, compaction, snapshot publish, install stored / log handled, log reset, segment creation, reply); each restart is compared with what the node had acknowledged; a directed scenario kills a follower inside a snapshot installation (snapshot published / log handled / inside the log reset / after it) and restarts it; a second one kills the node that is being bootstrapped; non-trivial if at least 2 crash images were reopened, or one in a directed scenario; distinct = distinct abstract trace (includes the crash points)",
+		Nontrivial: either(ge("crash-restarts", 2), all(ge("crash-restarts", 1), ge("directed-crash-windows", 1))),
 		MinQuick:   20, MinThorough: 200,
-		Counters:     []string{"crashes", "crash-restarts", "graceful-restarts", "wiped-restarts", "incarnations", "append-acks", "votes-granted", "snapshots-taken", "compactions", "log-resets"},
+		Counters:     []string{"crashes", "crash-restarts", "directed-crash-windows", "graceful-restarts", "wiped-restarts", "incarnations", "append-acks", "votes-granted", "snapshots-taken", "compactions", "log-resets"},
 		Prefixes:     []string{"crash@", "snapshot-installs:"},
 		SampleTopics: []string{"crash-restart"},
 		Assumptions:  stdAssumptions,
